@@ -776,6 +776,35 @@ func buildField(ww *conversionVisitor, node sourcewalk.FieldNode) (*descriptorpb
 			proto.SetExtension(desc.Options, validate.E_Field, rules)
 		}
 
+		if st.String_.Format != nil {
+			// the formats protovalidate knows are carried by its well-known
+			// string rules, which is where the reflection reads them from
+			stringRules := &validate.StringRules{}
+			if existing, ok := proto.GetExtension(desc.Options, validate.E_Field).(*validate.FieldConstraints); ok && existing.GetString_() != nil {
+				stringRules = existing.GetString_()
+			}
+			known := true
+			switch *st.String_.Format {
+			case "email":
+				stringRules.WellKnown = &validate.StringRules_Email{Email: true}
+			case "hostname":
+				stringRules.WellKnown = &validate.StringRules_Hostname{Hostname: true}
+			case "ipv4":
+				stringRules.WellKnown = &validate.StringRules_Ipv4{Ipv4: true}
+			case "ipv6":
+				stringRules.WellKnown = &validate.StringRules_Ipv6{Ipv6: true}
+			case "uri":
+				stringRules.WellKnown = &validate.StringRules_Uri{Uri: true}
+			default:
+				known = false
+			}
+			if known {
+				proto.SetExtension(desc.Options, validate.E_Field, &validate.FieldConstraints{
+					Type: &validate.FieldConstraints_String_{String_: stringRules},
+				})
+			}
+		}
+
 		if st.String_.ListRules != nil {
 			ww.file.ensureImport(j5ListAnnotationsImport)
 			proto.SetExtension(desc.Options, list_j5pb.E_Field, &list_j5pb.FieldConstraint{
